@@ -6,6 +6,7 @@ import (
 	"encoding/hex"
 	"encoding/json"
 	"fmt"
+	"net/url"
 	"strings"
 
 	"github.com/google/jsonschema-go/jsonschema"
@@ -74,6 +75,10 @@ func (c14) Run(c *fw.Case) {
 		failedCalls(c) // call history: failed calls before the case must leave nothing behind
 	}
 	r := c.R
+	if c.Idx%9 == 8 {
+		c14{}.loaderHistory(c)
+		return
+	}
 	var s *jsonschema.Schema
 	var docText string
 	var dynInsts []any
@@ -360,5 +365,118 @@ func (c14) Run(c *fw.Case) {
 	}
 	if c.Idx%2000 == 0 {
 		c.Sample(map[string]any{"schema": json.RawMessage(docText), "verdict_pattern": pattern})
+	}
+}
+
+// loaderHistory: Resolve is a function of (root, options, documents), not of earlier Resolve calls. A CACHING Loader hands
+// the same *Schema object for a URI to every call; roots of different drafts (draft-07, 2020-12, none, unsupported) that
+// reach that document are resolved one after the other, in a seeded order, some of them twice. Every outcome (error or the
+// verdict vector over the instances) must equal the outcome of the same root resolved alone with a fresh Loader and a fresh
+// decoding of the document; the cached document must be unchanged afterwards (own snapshot).
+func (c14) loaderHistory(c *fw.Case) {
+	r := c.R
+	draft := gen.Draft(r.IntN(2))
+	docModel := gen.Schema(r, gen.SchemaOpts{Draft: draft, MaxDepth: 2, Refs: true, Names: gen.Names[:4]})
+	dm, ok := docModel.(map[string]any)
+	if !ok {
+		return
+	}
+	delete(dm, "$schema") // the document inherits the draft of whoever refers to it
+	if r.IntN(3) == 0 {
+		dm["$schema"] = gen.Pick(r, []string{gen.Schema7URI, gen.Schema2020URI})
+	}
+	docText := gen.Text(dm)
+	defsKey := "$defs"
+	if draft == gen.D7 {
+		defsKey = "definitions"
+	}
+	roots := []string{
+		`{"$schema":"` + gen.Schema7URI + `","$ref":"http://h/doc.json"}`,
+		`{"$ref":"http://h/doc.json"}`,
+		`{"$schema":"` + gen.Schema2020URI + `","allOf":[{"$ref":"doc.json"}]}`,
+		`{"$schema":"` + gen.Schema7URIs + `","properties":{"a":{"$ref":"doc.json#/` + defsKey + `/d0"}}}`,
+		`{"properties":{"a":{"$ref":"doc.json#/` + defsKey + `/d0"}},"$id":"http://h/root.json"}`,
+	}
+	var insts []any
+	for _, im := range gen.Instances(r, docModel, 6, false, gen.Names[:4]...) {
+		insts = append(insts, gen.Canonical(gen.Text(im)), map[string]any{"a": gen.Canonical(gen.Text(im))})
+	}
+	outcome := func(rootText string, loader jsonschema.Loader, what string) (string, bool) {
+		var root jsonschema.Schema
+		if err := json.Unmarshal([]byte(rootText), &root); err != nil {
+			return "", false
+		}
+		var rs *jsonschema.Resolved
+		var err error
+		if !c.CallChecked("Resolve", map[string]any{"root": json.RawMessage(rootText), "document": json.RawMessage(docText), "loader": what}, func() {
+			rs, err = root.Resolve(&jsonschema.ResolveOptions{BaseURI: "http://h/root.json", Loader: loader})
+		}) {
+			return "", false
+		}
+		c.Eval(1)
+		if err != nil {
+			return "resolve-error", true
+		}
+		var sb strings.Builder
+		for _, inst := range insts {
+			v, ok := validate(c, rs, rootText, inst, "history instance")
+			if !ok {
+				return "", false
+			}
+			if v {
+				sb.WriteByte('1')
+			} else {
+				sb.WriteByte('0')
+			}
+		}
+		return sb.String(), true
+	}
+	fresh := func(u *url.URL) (*jsonschema.Schema, error) {
+		var d jsonschema.Schema
+		if err := json.Unmarshal([]byte(docText), &d); err != nil {
+			return nil, err
+		}
+		return &d, nil
+	}
+	want := make([]string, len(roots))
+	for i, rt := range roots {
+		o, ok := outcome(rt, fresh, "fresh")
+		if !ok {
+			return
+		}
+		want[i] = o
+	}
+	var cached jsonschema.Schema
+	if err := json.Unmarshal([]byte(docText), &cached); err != nil {
+		return
+	}
+	before := snap.Of(&cached)
+	caching := func(u *url.URL) (*jsonschema.Schema, error) { return &cached, nil }
+	order := r.Perm(len(roots))
+	order = append(order, r.Perm(len(roots))[:2]...)
+	var hist []string
+	for _, i := range order {
+		got, ok := outcome(roots[i], caching, "caching")
+		if !ok {
+			return
+		}
+		hist = append(hist, fmt.Sprint(i))
+		c.Digest(got)
+		if got != want[i] {
+			c.Violation(fmt.Sprintf("Resolve depends on earlier Resolve calls that used the same Loader document: root %d after the history %v gives %q, alone it gives %q", i, hist, got, want[i]),
+				map[string]any{"roots": roots, "document": json.RawMessage(docText), "history": hist, "root": json.RawMessage(roots[i])})
+			return
+		}
+	}
+	if after := snap.Of(&cached); after != before {
+		c.Violation("Resolve modified a document handed out by the Loader (a caching Loader serves it to later calls)", map[string]any{"document": json.RawMessage(docText), "before": before, "after": after})
+		return
+	}
+	distinct := map[string]bool{}
+	for _, w := range want {
+		distinct[w] = true
+	}
+	if len(distinct) >= 2 {
+		c.Nontrivial(fmt.Sprintf("loader-history|%d outcomes|draft%d", len(distinct), draft))
 	}
 }
